@@ -122,3 +122,50 @@ end
 
 end Conv
 end Mxj
+
+namespace Mxj
+
+/-! ### the tree-recursive fold: the streaming parser's steps applied along the tree -/
+
+namespace Fold
+
+mutual
+/-- the element value computed by folding `addChild` / `onText` over the children -/
+def value (cfg : DecCfg) (S : Strconv) : Node → Val
+  | .elem _ name attrs kids =>
+      let st := kids' cfg S (elemKey cfg S name) (loadAttrs cfg S attrs, none, 0, none) kids
+      finishElem cfg st.1 st.2.1
+  | _ => .null
+/-- state: (na, n, seq, pending character data) -/
+def kids' (cfg : DecCfg) (S : Strconv) (skey : Str) :
+    (Entries × Option Val × Nat × Option Str) → List Node → (Entries × Option Val × Nat × Option Str)
+  | st, [] => st
+  | (na, n, seq, _), .elem sp name attrs ks :: rest =>
+      let d := seqDecorate cfg seq (value cfg S (.elem sp name attrs ks))
+      kids' cfg S skey (addChild na (elemKey cfg S name) d.1, n, d.2, none) rest
+  | (na, n, seq, pend), .text s :: rest =>
+      let raw := (pend.getD []) ++ s
+      let r := onText cfg S skey na n raw
+      kids' cfg S skey (r.1, r.2, seq, some raw) rest
+  | (na, n, seq, _), _ :: rest => kids' cfg S skey (na, n, seq, none) rest
+end
+
+def doc (cfg : DecCfg) (S : Strconv) : Node → Val
+  | .elem sp name attrs kids => .map [(elemKey cfg S name, value cfg S (.elem sp name attrs kids))]
+  | _ => .null
+
+end Fold
+
+mutual
+/-- no two text nodes directly adjacent (the tokenizer never produces that from a document
+    without CDATA; with CDATA the decoder concatenates, so trees are taken normalised) -/
+def noAdjText : Node → Bool
+  | .elem _ _ _ kids => noAdjTextKids kids
+  | _ => true
+def noAdjTextKids : List Node → Bool
+  | [] => true
+  | .text _ :: .text _ :: _ => false
+  | k :: rest => noAdjText k && noAdjTextKids rest
+end
+
+end Mxj
